@@ -8,6 +8,7 @@ import (
 	"bufio"
 	"bytes"
 	"context"
+	"encoding/base64"
 	"encoding/hex"
 	"encoding/json"
 	"errors"
@@ -295,6 +296,15 @@ func (c *recConn) ctx() (int, string, int, *Fault) {
 	return n, stream, idx, nil
 }
 
+func indexString(s string) string {
+	if rest, ok := strings.CutPrefix(s, "\x00b64:"); ok {
+		if b, err := base64.RawStdEncoding.DecodeString(rest); err == nil {
+			return string(b)
+		}
+	}
+	return s
+}
+
 type jsonRef struct {
 	ID           string            `json:"id"`
 	Vary         string            `json:"vary"`
@@ -313,6 +323,11 @@ func (rs *runState) describeValue(b []byte) string {
 				if r == nil {
 					parts = append(parts, "null")
 					continue
+				}
+				// strings that are not valid UTF-8 are stored as "\x00b64:" + base64 (format of the index)
+				r.ID, r.Vary = indexString(r.ID), indexString(r.Vary)
+				for k, v := range r.VaryResolved {
+					r.VaryResolved[k] = indexString(v)
 				}
 				keys := make([]string, 0, len(r.VaryResolved))
 				for k := range r.VaryResolved {
